@@ -5,6 +5,8 @@ CONSTANTS
   AlphZ = {0, 77, 255}
   MaxLenZ = 4
   BlockSizes = {1, 2, 3, 65535}
+  AlphH = {0, 16, 62, 171, 255}
+  MaxLenH = 3
   AlphL = {65, 66}
   MaxLenL = 6
   NLong = 3
@@ -21,6 +23,10 @@ CONSTANTS
   DevAvg = FALSE
   DevArr = FALSE
   DevNul = FALSE
+  DevInd = TRUE
+  DevEncAvg = TRUE
+  RowAlph = {0, 127, 128, 255}
+  RowAlph3 = {}
   DevEmpty = FALSE
-INVARIANTS DisturbFails RoundTrip EncoderShape Refines DevExplained PaethOK RowOK EmitInv
+INVARIANTS DisturbFails RefinesInd RoundTrip EncoderShape Refines DevExplained PaethOK RowOK EmitInv
 CHECK_DEADLOCK FALSE
